@@ -81,13 +81,17 @@ def eval_call(V, node, st):
         if not V.old_stack:
             raise Unsupported('old() outside a postcondition')
         pre = V.old_stack[-1]
+        mode = 'entry'
+        if isinstance(pre, tuple):
+            pre, mode = pre
         sub = pre.fork()
-        for k, v in st.env.items():
-            if k not in sub.env:
-                sub.env[k] = v
-        for k in list(sub.env):
-            if k in st.env and k.startswith('$'):
-                sub.env[k] = st.env[k]
+        if mode == 'call':
+            # callee postcondition: names are the callee's parameters, heap is the pre-call heap
+            sub.env = dict(st.env)
+        else:
+            for k, v in st.env.items():
+                if k not in sub.env:
+                    sub.env[k] = v
         return V.ev(node.args[0], sub)
     # drop list: debug.* calls have no effect on analysed state
     if isinstance(f, ast.Attribute) and isinstance(f.value, ast.Name) and f.value.id == 'debug' \
@@ -104,7 +108,7 @@ def eval_call(V, node, st):
             kwargs = {k.arg: V.ev(k.value, st) for k in node.keywords}
             from . import methods
             newv, res = methods.mutate(V, recv, f.attr, args, kwargs, st, node)
-            V.bind_target(_as_store(f.value), newv, st, node)
+            V.bind_target(_as_store(f.value), newv, st, node, mutation=True)
             return res
     fn = V.ev(f, st)
     args = []
@@ -284,7 +288,7 @@ def call_spec(V, spec, self_val, args, kwargs, st, node):
         res = fresh(spec.ret, 'r_' + spec.name.replace('.', '_'))
     env2 = dict(env)
     env2['result'] = res
-    V.old_stack.append(pre)
+    V.old_stack.append((pre, 'call'))
     try:
         for e in spec.ensures:
             st.assume(V.eval_spec_bool(e, st, env2))
@@ -567,7 +571,7 @@ def assign_subscript(V, tgt, val, st, node):
                 raise Unsupported('constant index out of range')
             items = list(base.items)
             items[i] = val
-            V.bind_target(tgt.value, MList(items), st, node)
+            V.bind_target(tgt.value, MList(items), st, node, mutation=True)
             return
         raise Unsupported('symbolic index assignment into concrete list')
     if isinstance(base, SV) and isinstance(base.t, SeqT):
@@ -577,7 +581,7 @@ def assign_subscript(V, tgt, val, st, node):
         j = simp(z3.If(i < 0, n + i, i))
         new = z3.Concat(z3.SubSeq(base.z, 0, j), z3.Unit(pack(val, base.t.elem)),
                         z3.SubSeq(base.z, j + 1, n - j - 1))
-        V.bind_target(tgt.value, SV(base.t, new), st, node)
+        V.bind_target(tgt.value, SV(base.t, new), st, node, mutation=True)
         return
     if isinstance(base, SV) and isinstance(base.t, DictT):
         srt = sort_of(base.t)
@@ -585,7 +589,7 @@ def assign_subscript(V, tgt, val, st, node):
         new = srt.mk(z3.Store(srt.dom(base.z), k, True), z3.Store(srt.vals(base.z), k, pack(val, base.t.v)))
         nv = SV(base.t, new)
         track_dict_keys(V, st, tgt.value, base, idx)
-        V.bind_target(tgt.value, nv, st, node)
+        V.bind_target(tgt.value, nv, st, node, mutation=True)
         return
     if isinstance(base, MDictV):
         raise Unsupported('item assignment on untyped dict (declare a DictT local)')
